@@ -116,7 +116,7 @@ theorem createB_none {p : Params} {own : Own} {t : Tx} {bm : BlockMeta} {B : Boo
     (h : ownerOf own o = none) : createB p own t bm B j o = B := by
   unfold createB; rw [h]
 
-theorem createB_L {p : Params} {own : Own} {t : Tx} {bm : BlockMeta} {B : Book} {j : Nat} {o : Out}
+theorem createB_owned {p : Params} {own : Own} {t : Tx} {bm : BlockMeta} {B : Book} {j : Nat} {o : Out}
     {w : Wid} {ch : Bool} (h : ownerOf own o = some (w, ch)) :
     (createB p own t bm B j o).L = B.L ++ [⟨w, t.id, j, bm, t.cb, o, ch⟩] ∧
     (createB p own t bm B j o).credits = upd B.credits ⟨t.id, bm, j⟩ (some (creditOf p ⟨w, t.id, j, bm, t.cb, o, ch⟩)) := by
@@ -163,7 +163,7 @@ theorem createFold_refines {p : Params} {own : Own} {ready : List Wid} {tr : TxR
           (createB p own tr.tx blk B j o).credits ⟨tr.tx.id, blk, j'⟩ = none ∧
           lookupU (createB p own tr.tx blk B j o).L tr.tx.id j' = none := by
         intro j' hj'
-        obtain ⟨hLe, hCe⟩ := createB_L (p := p) (t := tr.tx) (bm := blk) (B := B) (j := j) ho
+        obtain ⟨hLe, hCe⟩ := createB_owned (p := p) (t := tr.tx) (bm := blk) (B := B) (j := j) ho
         rw [hLe, hCe]
         have hf := hfresh j' (by omega)
         constructor
